@@ -539,6 +539,9 @@ def classify_failures(pid, o, rec, known):
             rc, out = native_replay(o, info, path, timeout=20)
             if rc == 'timeout':
                 outcome['violations'].append(dict(desc='non-termination: ' + desc, replay=path, obligation=o.name))
+            elif isinstance(rc, int) and rc < 0:
+                # the native run of the same inputs dies on a signal: unbounded recursion ends in a stack overflow (SIGSEGV)
+                outcome['violations'].append(dict(desc='unbounded recursion / crash (native replay killed by signal %d): %s' % (-rc, desc), replay=path, obligation=o.name))
             else:
                 outcome['errors'].append('unwinding bound too small: %s' % desc)
         else:
